@@ -31,9 +31,9 @@ Definition array_binary (native_le:bool) (fmt:Z) (size:nat) (vals:list Z) : list
     (block_header n ++ flat_map host vals, 1)
   else
     let swapped (v:Z) := match size with 1%nat => v | 2%nat => swap16 v | 4%nat => swap32 v | _ => swap64 v end in
-    (* header, then per-element data calls (a single call for size 1); the item is counted when remaining reaches 0 inside a data call *)
-    let calls := match size with 1%nat => 1 | _ => Z.of_nat (length vals) end in
-    (block_header n ++ flat_map (fun v => host (swapped v)) vals, if 0 <? calls then 1 else 0).
+    (* header, then per-element data calls (a single call for size 1, and one zero-length call for an empty array -- fix of
+       observation 15); the item is counted when remaining reaches 0 inside a data call, i.e. exactly once *)
+    (block_header n ++ flat_map (fun v => host (swapped v)) vals, 1).
 
 (* ---------- snprintf(str, len, "%.15lg"/"%g") + strlen ---------- *)
 (* returns (characters stored before NUL, NUL stored?, return value, reads-unwritten-memory flag) *)
